@@ -2,6 +2,7 @@ package host
 
 import (
 	"context"
+	"syscall"
 	"errors"
 	"fmt"
 	"strings"
@@ -183,6 +184,14 @@ func TestC15(t *testing.T) {
 						default:
 						}
 					}
+				case "sigkill":
+					// the plugin dies abruptly: it cannot remove its socket file
+					syscall.Kill(pid, syscall.SIGKILL)
+					waitState(pid, 5*time.Second, "gone", "Z")
+					for i := 0; i < 300 && !clients[0].c.Exited(); i++ {
+						time.Sleep(10 * time.Millisecond)
+					}
+					s.OK, s.Exited = true, clients[0].c.Exited()
 				case "cancel":
 					cancel()
 					select {
